@@ -305,6 +305,8 @@ class Interp:
                                     return False
                                 st = self.set_tag(st, idx, new)
                 else:
+                    if l0.get("k") == "Ref" and l0.get("n") == "sp" and l0.get("d") == "global" and op == "false":
+                        return False   # the value stack pointer is never NULL
                     v = self.ival(l0, N) if l0.get("k") in ("Ref", "Bin") else None
                     if v is not None and ((op == "true") != (v != 0)):
                         return False
@@ -408,7 +410,31 @@ def make_join(spec):
     return join
 
 
+def extend_consumers(prog):
+    """functions that hand one of their own int parameters on as the argument count of an apply-style consumer consume that
+    many stacked values themselves (clone_object -> call_create -> apply ...)."""
+    changed = True
+    rounds = 0
+    while changed and rounds < 6:
+        changed = False
+        rounds += 1
+        for g in prog.functions():
+            if g.name in CONSUMES or not g.params:
+                continue
+            pidx = {p.get("id"): k for k, p in enumerate(g.params)}
+            for b, i, n in g.calls():
+                ci = CONSUMES.get(n.get("fn"))
+                if ci is None or len(n.get("args", [])) <= ci:
+                    continue
+                a = strip(n["args"][ci])
+                if a.get("k") == "Ref" and a.get("id") in pidx:
+                    CONSUMES[g.name] = pidx[a.get("id")]
+                    changed = True
+                    break
+
+
 def check(run, prog, tier, cg):
+    extend_consumers(prog)
     run.rule("C01-e", "every read of a pointer member (u.string/u.arr/u.map/u.ob/u.buf/u.fp) of an efun argument slot happens under a tag set, guaranteed by the dispatcher or established by the efun's own tests, for which that member is a pointer", 150)
     specs, path = load_specs()
     run.need(specs, "generated efun table %s" % path)
